@@ -7,7 +7,10 @@ interleaving of the services' outputs: all items and errors are yielded once, in
 order, before the end (`AllYielded`, `PerServiceOrder`); the end is NoServiceConfigured iff
 no service is configured, NoResults carrying all errors (in yield order) iff no item was
 produced, a plain end otherwise (`TerminalRule`); nothing but `None` after the end
-(`NothingAfterEnd`, `OneTerminal`).  A deliberately wrong variant (`EarlyTerminal`) is
+(`NothingAfterEnd`, `OneTerminal`).  Beyond C29 the spec also models the consumer dropping
+the stream early (`DropStream`) and when the per-service streams are released
+(`ReleasedOnlyWhenDone`, `AllReleasedAtEnd`); the harness observes releases through Drop guards
+and a difference there is reported as non-conformance (exit 2).  A deliberately wrong variant (`EarlyTerminal`) is
 refuted first to show that the invariants bite.
 
 Binding (mode A): every finished behaviour of the model is executed on the real
@@ -57,12 +60,17 @@ def norm(out):
 
 def forced_case(idx, b):
     at = {}
+    drop_after = None
     for pos, y in enumerate(b["out"]):
         if y["k"] in ("item", "err"):
             at[(y["s"], y["i"])] = pos + 1
-    svcs = [{"decl": s["decl"], "outs": s["outs"], "at": [at[(n + 1, j + 1)] for j in range(len(s["outs"]))] if not s["decl"] else []}
+        elif y["k"] == "dropped":
+            drop_after = pos
+    # outputs the model never yields (the consumer dropped the stream first) stay pending
+    svcs = [{"decl": s["decl"], "outs": s["outs"],
+             "at": [at.get((n + 1, j + 1), 1000 + j) for j in range(len(s["outs"]))] if not s["decl"] else []}
             for n, s in enumerate(b["svcs"])]
-    return {"case": idx, "svcs": svcs, "extra": EXTRA}
+    return {"case": idx, "svcs": svcs, "extra": EXTRA, "drop_after": drop_after}
 
 
 def free_case(idx, svcs):
@@ -124,9 +132,20 @@ def judge_forced(ctx, b, case, o):
     for pos, y in enumerate(o["out"]):
         if y["k"] in ("item", "err") and y["t"] != pos + 1:
             raise ToolError("forced schedule not realised: yield %d at virtual %d ms" % (pos + 1, y["t"]))
+    check_released(b["released"], case, o)
     if len(b["svcs"]) >= 2 and len(exp) >= 7 and len(ctx.cov["samples"]) < 3 and case["case"] % 11 == 0:
         ctx.sample({"mode": "forced", "services": [("decline" if s["decl"] else s["outs"]) for s in b["svcs"]],
                     "yields": [[y["k"], y["s"], y["i"], y["t"]] for y in o["out"]]})
+
+
+def check_released(model_released, case, o):
+    """Growth beyond C29 (resource release): a difference is non-conformance, not a violation."""
+    if sorted(o["released"]) != sorted(model_released):
+        raise ToolError("NONCONFORMANCE (not a C29 violation): service streams dropped at the end %s, model %s; case %s"
+                        % (sorted(o["released"]), sorted(model_released), json.dumps(case)))
+    if o["released_early"]:
+        raise ToolError("NONCONFORMANCE (not a C29 violation): streams of services %s were dropped while they still had "
+                        "outputs and the consumer held the stream; case %s" % (o["released_early"], json.dumps(case)))
 
 
 def judge_free(ctx, svcs, allowed, case, o):
@@ -143,6 +162,7 @@ def judge_free(ctx, svcs, allowed, case, o):
         ctx.report(sig, "stream yielded %s, which is none of the model's %d behaviours for this configuration (closest: %s)"
                    % (got, len(allowed), best), replay)
         return
+    check_released([n + 1 for n, s in enumerate(svcs) if not s["decl"]] if svcs else [], case, o)
     if len(svcs) == 3 and len(ctx.cov["samples"]) < 4 and sum(len(s["outs"]) for s in svcs) >= 4:
         ctx.sample({"mode": "free", "services": [("decline" if s["decl"] else s["outs"]) for s in svcs],
                     "yields": [[y["k"], y["s"], y["i"]] for y in o["out"]]})
@@ -156,19 +176,19 @@ def run(ctx):
             judge_forced(ctx, rep["behaviour"], rep["case"], o)
         else:
             res = ctx.tlc("lookup", "AddressLookup", mode="gen", timeout=1800,
-                          constants={"MaxSvcs": 3, "MaxLen": 3, "EarlyTerminal": "FALSE"})
+                          constants={"MaxSvcs": 3, "MaxLen": 3, "EarlyTerminal": "FALSE", "AllowDrop": "FALSE"})
             allowed = [norm(b["out"]) for b in res.replays if cfg_key(b["svcs"]) == cfg_key(rep["svcs"])]
             judge_free(ctx, rep["svcs"], allowed, rep["case"], o)
         return
     # anti-vacuity: a design that reports NoResults although items were yielded is refuted
     ctx.tlc("lookup", "AddressLookup", cfg="AddressLookup_mc.cfg", mode="mc", workers=2, coverage=False, timeout=900,
-            constants={"MaxSvcs": 2, "MaxLen": 2, "EarlyTerminal": "TRUE"}, expect_violation="TerminalRule")
+            constants={"MaxSvcs": 2, "MaxLen": 2, "EarlyTerminal": "TRUE", "AllowDrop": "FALSE"}, expect_violation="TerminalRule")
     bounds = ctx.pick([(3, 1), (2, 3)], [(3, 2), (2, 3)])
     behaviours = []
     for (ns, ln) in bounds:
         res = ctx.tlc("lookup", "AddressLookup", mode="gen", timeout=3000,
-                      constants={"MaxSvcs": ns, "MaxLen": ln, "EarlyTerminal": "FALSE"},
-                      require_actions=["Resolve", "PollItem", "PollErr", "PollEnd", "PollNoService", "PollClosed"])
+                      constants={"MaxSvcs": ns, "MaxLen": ln, "EarlyTerminal": "FALSE", "AllowDrop": "TRUE"},
+                      require_actions=["Resolve", "PollItem", "PollErr", "PollEnd", "PollNoService", "PollClosed", "DropStream"])
         behaviours += res.replays
     # the two bounds overlap: keep each behaviour once
     seen, uniq = set(), []
@@ -183,7 +203,8 @@ def run(ctx):
     cases = [forced_case(i, b) for i, b in enumerate(behaviours)]
     by_cfg = {}
     for b in behaviours:
-        by_cfg.setdefault(cfg_key(b["svcs"]), (b["svcs"], []))[1].append(norm(b["out"]))
+        if not any(y["k"] == "dropped" for y in b["out"]):          # free runs are polled to the end
+            by_cfg.setdefault(cfg_key(b["svcs"]), (b["svcs"], []))[1].append(norm(b["out"]))
     cfgs = list(by_cfg.values())
     fcases = [free_case(len(cases) + i, svcs) for i, (svcs, _) in enumerate(cfgs)]
     allobs = run_cases(ctx, cases + fcases, "c29")
@@ -206,7 +227,7 @@ def selftest(ctx, behaviours, cases, obs):
     import copy, contextlib, io, os
     n = 0
     for b, c, o in zip(behaviours, cases, obs):
-        if sum(1 for y in b["out"] if y["k"] in ("item", "err")) < 2:
+        if sum(1 for y in b["out"] if y["k"] in ("item", "err")) < 2 or any(y["k"] == "dropped" for y in b["out"]):
             continue
         for variant in ("swap", "drop", "terminal"):
             sub = type(ctx)(ctx.prop, ctx.tier, ctx.seed)
